@@ -283,14 +283,14 @@ def main():
     # family converge_real: the same schedules over the REAL zorg (SQLite, SQLRepo, ANTLR compiler) in a temp directory
     tpath, table, ntriples = build_real_table(m, tier, seed)
     REAL_TABLE[:] = table
-    stride = 1 if tier == "quick" else 4
+    stride = 1 if tier == "quick" else 6
     rep.note("real-run family: %d state triples (%s), %d schedules, every %s one run" % (
-        ntriples, "every 150th, rotated by the seed, plus every per-page state beside an empty second page" if tier == "quick" else "all", len(table), "" if stride == 1 else "4th"))
+        ntriples, "every 150th, rotated by the seed, plus every per-page state beside an empty second page" if tier == "quick" else "all", len(table), "" if stride == 1 else "6th"))
     envr = {"XH_TABLE": tpath, "XH_STRIDE": stride, "XH_OFFSET": seed}
     rstep = max(1, (len(table) + 15) // 16)
     for lo in range(0, len(table), rstep):
         hi = min(len(table), lo + rstep)
-        conds.append(xh.Cond(HR, "converge_real", timeout=1500 if tier == "quick" else 3000, path_timeout=120,
+        conds.append(xh.Cond(HR, "converge_real", timeout=1500 if tier == "quick" else 3600, path_timeout=120,
                              env=dict(envr, XH_N="%d-%d" % (lo, hi)), cc=False,
                              meta={"variant": "n[%d:%d]" % (lo, hi), "family": "converge_real",
                                    "bound": "real-run schedules %d..%d of %d" % (lo, hi - 1, len(table))}))
